@@ -2019,7 +2019,7 @@ func parallelLines(n, workers int, out *Out, gen func(i int) string) {
 		need := make([]bool, end-base)
 		first := out.n
 		for k := range lines {
-			need[k] = out.only < 0 || out.only == first+k
+			need[k] = out.WantAt(first + k)
 		}
 		var wg sync.WaitGroup
 		sem := make(chan struct{}, workers)
